@@ -912,6 +912,10 @@ class Builder(object):
             else:
                 dha = (txa, dha[1])
 
+        if name in serving.Server.Names:
+            msg = "ParseError: Building verb '%s'. Task '%s' already exists." % (command, name)
+            raise excepting.ParseError(msg, tokens, index)
+
         server = serving.Server(name=name, store = self.currentStore,)
         kw = dict(period=period, schedule=schedule, sha=sha, dha=dha, prefix=prefix,)
         kw.update(init)
